@@ -14,8 +14,15 @@ Local Open Scope Z_scope.
 Definition max_tries : Z := 10.                  (* passCodeMaxTries *)
 Definition valid_buffer : Z := 60000000000.      (* 1 * time.Minute in NewPassCode *)
 
+(** [p_has_valid] / [p_has_expire]: a stored record may lack its window
+    (written by other means than NewPassCode; the fields are pointers in the
+    code).  [p_tried] is a Go [int]: 64-bit, wrapping. *)
 Record pcode := mkPC {
-  p_code : N; p_valid : Z; p_expire : Z; p_consumed : bool; p_tried : Z }.
+  p_code : N; p_has_valid : bool; p_valid : Z; p_has_expire : bool; p_expire : Z;
+  p_consumed : bool; p_tried : Z }.
+
+Definition two63 : Z := 9223372036854775808.
+Definition wrap_int (z : Z) : Z := (z + two63) mod (2 * two63) - two63.
 
 Record rstate := mkR {
   r_disabled : bool;
@@ -33,13 +40,15 @@ Inductive pop :=
 
 (** Results: 0 accepted / done; 1 role disabled; 2 empty claim; 3 no code set;
     4 too many wrong codes; 5 already consumed; 6 not valid yet; 7 expired;
-    8 incorrect. *)
+    8 incorrect; 9 internal (record without its window). *)
 Definition checkPassCode (claim : N) (pc : option pcode) (now : Z) : N :=
   if (claim =? 0)%N then 2%N
   else match pc with
        | None => 3%N
        | Some c =>
-           if max_tries <? p_tried c then 4%N
+           if negb (p_has_valid c) then 9%N
+           else if negb (p_has_expire c) then 9%N
+           else if max_tries <? p_tried c then 4%N
            else if p_consumed c then 5%N
            else if now <? p_valid c then 6%N
            else if p_expire c <? now then 7%N
@@ -49,13 +58,15 @@ Definition checkPassCode (claim : N) (pc : option pcode) (now : Z) : N :=
 
 Definition bump (pc : option pcode) : option pcode :=
   match pc with
-  | Some c => Some (mkPC (p_code c) (p_valid c) (p_expire c) (p_consumed c) (p_tried c + 1))
+  | Some c => Some (mkPC (p_code c) (p_has_valid c) (p_valid c) (p_has_expire c) (p_expire c)
+                         (p_consumed c) (wrap_int (p_tried c + 1)))
   | None => None
   end.
 
 Definition consume (pc : option pcode) : option pcode :=
   match pc with
-  | Some c => Some (mkPC (p_code c) (p_valid c) (p_expire c) true (p_tried c))
+  | Some c => Some (mkPC (p_code c) (p_has_valid c) (p_valid c) (p_has_expire c) (p_expire c)
+                         true (p_tried c))
   | None => None
   end.
 
@@ -69,7 +80,7 @@ Definition step_with (persist : bool) (expiry : Z) (s : rstate) (o : pop) : rsta
       if r_disabled s then (s, 1%N)
       else
         let n := (r_issued s + 1)%N in
-        (mkR false (Some (mkPC n (t - valid_buffer) (t + Z.max 0 expiry) false 0)) (r_id s) n, 0%N)
+        (mkR false (Some (mkPC n true (t - valid_buffer) true (t + Z.max 0 expiry) false 0)) (r_id s) n, 0%N)
   | PTry claim id t =>
       if r_disabled s then (s, 1%N)
       else
